@@ -348,6 +348,11 @@ pub mod log_specification {
         }
     }
     impl LogSpecification {
+    //@ fn src/log_specification.rs impl From<LevelFilter> for LogSpecification / fn from
+    //@   ret r
+    //@   props C17
+    //@   ens[From<LevelFilter>::from.post] value == LevelFilter::Off ==> r.is_off()
+    //@   ens[From<LevelFilter>::from.post.level] value != LevelFilter::Off ==> r.filters().len() == 1 && mf_entry(r.filters()[0]) == (Entry { name: None, level: value })
     //@ fn src/log_specification.rs impl std::fmt::Display for LogSpecification / fn fmt
     //@   ret r
     //@   props C17
